@@ -1,13 +1,16 @@
 #!/bin/bash
-# usage: tools/try_patch.sh <patch.diff> <ID> [<ID>...]   - applies the patch to /repo, runs the quick checks, restores /repo
+# usage: tools/try_patch.sh <patch.diff> <ID> [<ID>...]
+# Runs the quick (or $TIER) checks against a scratch copy of /repo with the patch applied (VERIF_REPO points the checks at the copy),
+# so /repo itself is never modified and several patches can be tried in parallel. The copy is removed afterwards.
 set -u
-patch="$1"; shift
+patch="$(readlink -f "$1")"; shift
 cd /verif
-if ! git -C /repo diff --quiet; then echo "/repo has uncommitted changes"; exit 3; fi
-git -C /repo apply "$patch" || { echo "patch does not apply"; exit 3; }
-trap 'git -C /repo checkout -- . ; git -C /repo clean -fdq src tests 2>/dev/null' EXIT
+copy=$(mktemp -d /tmp/mutrepo.XXXXXX)
+trap 'rm -rf "$copy"' EXIT
+(cd /repo && git archive HEAD) | tar -x -C "$copy"
+(cd "$copy" && patch -p1 -s < "$patch") || { echo "patch does not apply"; exit 3; }
 for id in "$@"; do
-  out=$(./check "$id" --tier "${TIER:-quick}" 2>&1); rc=$?
+  out=$(VERIF_REPO="$copy" VERIF_EVIDENCE_DIR="$copy/evidence" ./check "$id" --tier "${TIER:-quick}" 2>&1); rc=$?
   echo "== $id exit=$rc"
-  echo "$out" | grep -E "^VIOLATION|^  [A-Za-z].*::|^INCONCLUSIVE|tier=" | cut -c1-400 | head -8
+  echo "$out" | grep -E "^VIOLATION|^  [A-Za-z].*::|^INCONCLUSIVE|tier=" | cut -c1-420 | head -${LINES_MAX:-8}
 done
